@@ -82,7 +82,22 @@ def keys_boundary():
     for lz in (1, 2, 4, 8, 16, 24, 31):
         ks.append((1 << (8 * (32 - lz))) - 1)        # lz leading zero bytes, rest ones
         ks.append(1 << (8 * (32 - lz) - 1))          # top bit of the first non-zero byte
-    return ks
+    return ks + keys_endo()
+
+
+LAMBDA = 0x5363AD4CC05C30E0A5261C028812645A122E22EA20816678DF02967C1B23BD72   # lambda^3 = 1 (mod n): lambda*(x, y) = (beta*x, y)
+
+
+def keys_endo():
+    """Scalars around the cube roots of unity mod n.  k*G, lambda*k*G and lambda^2*k*G are three DIFFERENT points with the
+    SAME y: the only pairs of distinct, non-opposite points a group-law implementation could confuse by looking at one
+    coordinate (the mirror image of P / -P, which share x).  Double-and-add meets such a pair exactly for these scalars."""
+    n, lam = secp.N, LAMBDA
+    lam2 = lam * lam % n
+    out = []
+    for v in (lam, lam2):
+        out += [v - 1, v, v + 1, n - v, 2 * v % n, (2 * v + 1) % n, (2 * v + 2) % n, (2 * v + 3) % n]
+    return [k for k in out if 1 <= k < n]
 
 
 def k32(k):
